@@ -3,8 +3,10 @@
 Direction A: TLC checks OwnFieldOnly / totality over the case family and exports every case with
 its predicted outcome; the harness builds one *Funcs value per case by reflection and calls the
 method.  Direction B: every recorded call is validated by TLC against OciFuncs (OciFuncsTrace)."""
+import concurrent.futures as cf
 import json
 import os
+import threading
 
 import vlib
 
@@ -126,15 +128,64 @@ def name_observations(ctx, trace):
         err = e['yields'][0]['e'] if e.get('iter') and e['yields'] else e['err']
         obs.append(dict(m=e['m'], custom=e['custom'], nilrecv=e['nilrecv'],
                         constructor_told=[c['name'] for c in e['ctor']], default_error_names=err['msgname']))
-        sel = sel[k + 1:]
-    ctx.cov['method_name_observations'] = dict(cases_checked=total, deviating=obs)
-    for line in sorted({'%s with its field unset reports method name %s' % (o['m'], (o['constructor_told'] or [o['default_error_names']])[0]) for o in obs}):
-        print('OBSERVATION property=%s (not part of the verdict): %s' % (ctx.pid, line))
-    return obs
+        # first deviating case per method is enough: drop the method's other cases
+        sel = [x for x in sel[k + 1:] if json.loads(x[1])['m'] != e['m']]
+    ctx.cov['method_name_observations'] = dict(cases_checked=total, first_deviating_case_per_method=obs)
+    return sorted({'%s with its field unset reports method name %s' % (o['m'], (o['constructor_told'] or [o['default_error_names']])[0]) for o in obs})
+
+
+def canary(ctx, trace):
+    """Machinery self-test: an accepted event with one output field corrupted must be rejected by TLC."""
+    hdr, scen = vlib.split_scenarios(trace)
+    picks = {}
+    for s in scen:
+        for l in s[1:]:
+            e = json.loads(l)
+            if e['op'] != 'call' or e['iter']:
+                continue
+            if e['pred'] == 'delegate' and e['m'] == 'GetBlob' and 'delegate' not in picks:
+                picks['delegate'] = e
+            if e['pred'] == 'unsupported' and e['m'] == 'GetBlob' and 'unsupported' not in picks:
+                picks['unsupported'] = e
+    if len(picks) < 2:
+        raise vlib.Machinery('canary: no GetBlob events to corrupt')
+    d = ctx.sub('canary')
+    good = os.path.join(d, 'good.ndjson')
+    vlib.write_trace(good, hdr, [['{"op":"reset","at":0}', json.dumps(picks['delegate'])], ['{"op":"reset","at":0}', json.dumps(picks['unsupported'])]])
+    if not vlib.validate_trace(ctx, MODULE, CFG, good, consts=STRICT)['accepted']:
+        ctx.cov['canary'] = 'skipped: the GetBlob events themselves are rejected on this tree'
+        return
+    bad1 = json.loads(json.dumps(picks['delegate']))
+    bad1['calls'][0]['args'][1] = 's:somewhere-else'
+    bad2 = json.loads(json.dumps(picks['unsupported']))
+    bad2['err']['unsupported'] = False
+
+    def one(item):
+        name, b = item
+        p = os.path.join(d, 'bad-%s.ndjson' % name.replace(' ', '-'))
+        vlib.write_trace(p, hdr, [['{"op":"reset","at":0}', json.dumps(b)]])
+        return name, vlib.validate_trace(ctx, MODULE, CFG, p, consts=STRICT)
+    with cf.ThreadPoolExecutor(max_workers=2) as ex:
+        for name, r in ex.map(one, (('stub argument', bad1), ('error class', bad2))):
+            if r['accepted'] or r.get('line') != 3:
+                raise vlib.Machinery('canary: a trace with a corrupted %s was not rejected at the corrupted event (%s)' % (name, r))
+    ctx.cov['canary'] = 'corrupted stub argument and corrupted error class both rejected by TLC at the corrupted line'
+
+
+def serialize_sub(ctx):
+    """Ctx.sub numbers scratch directories with an unlocked counter; validations run in threads here."""
+    lock = threading.Lock()
+    orig = ctx.sub
+
+    def sub(name):
+        with lock:
+            return orig(name)
+    ctx.sub = sub
 
 
 def run(ctx):
     quick = ctx.tier == 'quick'
+    serialize_sub(ctx)
     # 1. the model: per-case properties on every case of the family; the cases leave TLC as MBT lines
     cases = export_cases(ctx)
     if not quick:
@@ -153,6 +204,12 @@ def run(ctx):
     if res['cases'] != len(cases):
         raise vlib.Machinery('harness executed %d of %d cases' % (res['cases'], len(cases)))
     traces = [t0]
+    if not quick:
+        # the same cases again with other argument and result values
+        for k in (1, 2):
+            t = os.path.join(td, 'tlc-cases-args%d.ndjson' % k)
+            run_funcs(ctx, vh, t, cases=cp, seed=ctx.seed + 7919 * k)
+            traces.append(t)
     nrand = 300 if quick else 12000
     per = 3000
     i = 0
@@ -168,9 +225,14 @@ def run(ctx):
                           dict(recorded_events=samples(t0))]
     ctx.cov['cases_exported_by_tlc'] = len(cases)
     # 3. TLC validates every recorded call against the specification
-    vlib.judge_traces(ctx, MODULE, CFG, traces, strict=STRICT, shard_lines=600 if quick else 2000, label='Funcs vs OciFuncs')
-    # 4. observation (no verdict): the method name reported
-    name_observations(ctx, t0)
+    #    (meanwhile, on the side: 4. observation without verdict: the method name reported; machinery self-test)
+    with cf.ThreadPoolExecutor(max_workers=2) as ex:
+        fo = ex.submit(name_observations, ctx, t0)
+        fc = ex.submit(canary, ctx, t0)
+        vlib.judge_traces(ctx, MODULE, CFG, traces, strict=STRICT, shard_lines=600 if quick else 2000, label='Funcs vs OciFuncs')
+        for line in fo.result():
+            print('OBSERVATION property=%s (not part of the verdict): %s' % (ctx.pid, line))
+        fc.result()
     ctx.assumptions += ['recording stubs, tagged contexts/readers/errors and the rendering of arguments and results by the harness (Go reflect, encoding/json)',
                         'errors.Is and interface identity (==) of Go as the observers of error class and identity',
                         'TLC and the Json/IOUtils community modules']
@@ -182,6 +244,7 @@ def run(ctx):
 
 
 def replay(ctx, path):
+    serialize_sub(ctx)
     vh = vlib.build_harness(ctx)
     out = os.path.join(ctx.sub('replay'), 'trace.ndjson')
     run_funcs(ctx, vh, out, replay=path)
